@@ -220,8 +220,8 @@ func (c *ccc) picker(stale uint64) balancer.Picker {
 	if len(c.pickers) == 0 {
 		return nil
 	}
-	if stale%5 == 0 {
-		return c.pickers[int(stale/5)%len(c.pickers)]
+	if stale%3 == 0 {
+		return c.pickers[int(stale/3)%len(c.pickers)]
 	}
 	return c.pickers[len(c.pickers)-1]
 }
@@ -353,7 +353,11 @@ func RunPool(p *PoolProg) (violation string, st Stats) {
 			case flaps > 0 && sc != nil && !sc.refresh && r%4 == 0:
 				flaps--
 				report(sc, []connectivity.State{connectivity.TransientFailure, connectivity.Idle, connectivity.Connecting}[r>>20%3])
-				runtime.Gosched()
+				if r>>28%2 == 0 {
+					time.Sleep(time.Duration(20+r>>32%400) * time.Microsecond) // the channel stays down for a while: keyed calls take the fallback path
+				} else {
+					runtime.Gosched()
+				}
 				report(sc, connectivity.Ready)
 			case resolves > 0 && r%4 == 1:
 				resolves--
